@@ -51,6 +51,9 @@ def jobs(tier, seed):
                         # a missing coordinate after the caches were filled by a complete evaluation elsewhere
                         add(d, ["eval"], vs[0], sup, pre=[["eval", "root", "q"]])
                         add(d, ["eval"], vs[0], sup, pre=[["fwd", "root", "q"]])
+                        # the failing evaluation itself came first, then other entry points filled the caches at a complete point, then it is repeated
+                        add(d, ["eval"], vs[0], sup, pre=[["eval", "root", ""], ["fwd", "root", "q"]])
+                        add(d, ["eval"], vs[0], sup, pre=[["eval", "root", ""], ["rev", "root", "q"], ["eval", "root", "q"], ["fwd_early", "root", "q"]])
     # Derivative of expressions with at most one variable, evaluated at a Point (complete, with extra coordinates, empty for variable-free trees)
     for d in [["Add"], ["const", 3], ["Add", ["const", 2], ["Multiply"]], ["NthPower", fam.X, 2], ["Multiply", fam.X, ["Exponential", fam.X]], fam.X]:
         vs = rt.variables_of(d)
@@ -62,6 +65,8 @@ def jobs(tier, seed):
         if vs:
             add(d, ["eval", "fwd", "rev"], vs[0], vs[1:])
             add(d, ["eval"], vs[0], vs[1:], pre=[["eval", "root", "q"]])
+            add(d, ["eval"], vs[0], vs[1:], pre=[["eval", "root", ""], ["fwd", "root", "q"]])
+            add(d, ["eval", "fwd", "rev"], vs[0], vs, pre=[["eval", "root", ""], ["fwd", "root", "q"], ["eval", "root", "q"]])
     for d in fam.f1_shared(tier):
         add(d, ["eval"], "x", ["y"], pre=[["eval", "root", "q"]])
         add(d, ["eval"], "x", ["x"], pre=[["fwd", "root", "q"]])
